@@ -28,7 +28,7 @@ ASSUMPTIONS = [
 ]
 
 IPS = ["192.0.2.7", "198.51.100.9", "2001:db8::5"]
-CERTS = [None, "ec-a", "rsa-a", "ed-a"]
+CERTS = [None, "ec-a", "rsa-a", "ed-a", "twin-a", "twin-b"]
 
 
 def fp_of(kind):
@@ -46,7 +46,7 @@ def comp_st(draw):
     elif k == 3:
         c = {"kind": "raise", "exc": draw(st.sampled_from(["ValueError", "RuntimeError", "Custom", "KeyError", "CancelledError"]))}
     elif k == 4:
-        c = {"kind": "deny-none"}
+        c = draw(st.sampled_from([{"kind": "deny-none"}, {"kind": "allow-once", "response": "44 Slow down\r\n"}]))
     elif k <= 6:
         c = {"kind": "real", "name": "ratelimit", "capacity": draw(st.sampled_from([0, 0, 1000]))}
     elif k <= 8:
@@ -79,7 +79,7 @@ def case_st(draw):
         content = bytes((i * 7 + 3) & 0xFF for i in range(n))
         decl = n if valid else draw(st.sampled_from(["x", "-1"]))
         line = f"titan://{host}{path};size={decl};token=tok"
-        data = line.encode() + b"\r\n" + content
+        data = line.encode() + b"\r\n" + content + draw(st.sampled_from([b"", b"", b"X", b"stray bytes after the upload"]))
     else:
         q = draw(st.sampled_from(["", "?a=b"]))
         line = f"gemini://{host}{path}{q}" if valid else draw(st.sampled_from(
@@ -124,8 +124,8 @@ def reference(case):
     ip, fp = case["peer"], fp_of(case["cert"])
     for c in case["chain"]:
         k = c["kind"]
-        if k == "allow":
-            continue
+        if k in ("allow", "allow-once"):
+            continue  # a single consultation per request is all a conforming server makes
         if k == "deny":
             return "deny", c["response"]
         if k == "deny-none":
@@ -260,7 +260,7 @@ def asm_case_st(draw):
         "certauth": None if not use_certauth else {
             "prefix": draw(st.sampled_from(["/", "/private/"])),
             "require_cert": draw(st.booleans()),
-            "allowed": draw(st.one_of(st.none(), st.lists(st.sampled_from(["ec-a", "rsa-a", "ed-a"]), max_size=2, unique=True))),
+            "allowed": draw(st.one_of(st.none(), st.lists(st.sampled_from(["ec-a", "rsa-a", "ed-a", "twin-a"]), max_size=2, unique=True))),
         },
         "acl": draw(st.one_of(st.none(), st.fixed_dictionaries({
             "allow": st.one_of(st.none(), st.lists(st.sampled_from(IPS), min_size=1, max_size=2, unique=True)),
@@ -270,6 +270,7 @@ def asm_case_st(draw):
         "path": draw(st.sampled_from(["/", "/private/secret.gmi", "/pub.gmi"])),
         "peer": draw(st.sampled_from(IPS)),
         "cert": draw(st.sampled_from(CERTS)),
+        "prior": draw(st.sampled_from([None, None, "twin-a", "twin-b", "ec-a"])),
         "tls": draw(st.sampled_from(["1.3", "1.2"])),
     }
 
@@ -326,6 +327,15 @@ def run_asm(case: dict):
         if chain is not None:
             chain.middlewares.append(Recorder(log, loop))
         v = ssl.TLSVersion.TLSv1_2 if case["tls"] == "1.2" else ssl.TLSVersion.TLSv1_3
+        if case.get("prior"):
+            # an earlier connection of another client (possibly a certificate with the same issuer and serial number)
+            pc = memnet.ServerConn(loop, factory, sslctx, memnet.permissive_client_ctx(cert=certs.get(case["prior"])),
+                                   peername=("198.51.100.77", 52000))
+            if await pc.handshake():
+                await pc.request(f"gemini://localhost{case['path']}\r\n".encode())
+                await asyncio.sleep(1)
+                await pc.pump()
+            log.clear()
         cctx = memnet.permissive_client_ctx(minv=v, maxv=v, cert=certs.get(case["cert"]) if case["cert"] else None)
         conn = memnet.ServerConn(loop, factory, sslctx, cctx, peername=(case["peer"], 51000))
         hs = await conn.handshake()
